@@ -133,7 +133,7 @@ def with_die_kills(sc: dict, ch: Choices) -> dict:
 def compact_spec(sc: dict) -> dict:
     keep = ('nodes', 'requested', 'backend', 'max_workers', 'cpu_count', 'cof', 'cached', 'bust_cache', 'fail',
             'kills', 'interrupts', 'io_fault', 'inject_line', 'swarm', 's1', 'storage', 'progress', 'line_yield', 'rel_storage',
-            'chdir_nodes', 'coarse_clock', 'emit', 'linger', 'shapes', 'helpers')
+            'chdir_nodes', 'coarse_clock', 'emit', 'linger', 'shapes', 'helpers', 'mp_children', 'earlier_call')
     return {k: sc[k] for k in keep if k in sc and sc[k] not in (None, [], {})}
 
 
@@ -237,7 +237,18 @@ class Check:
         d = tempfile.mkdtemp(dir=workdir)
         second = False
         try:
-            out = execute(sc, ch, d)
+            built = None
+            if sc.get('earlier_call'):
+                # an earlier run_tasks call in which everything succeeds (no storage, serial backend, another
+                # context); the observed call then gets the very same task objects
+                sc0 = {k: v for k, v in sc.items() if k not in ('fail', 'kills', 'kill_rate', 'max_random_kills', 'cached', 'bust_cache',
+                                                                'prelude', 'interrupts', 'emit', 'debris', 'load_faults', 'run_task',
+                                                                'earlier_call', 'linger', 'helpers', 'shapes', 'rel_storage')}
+                sc0.update({'storage': 'none', 'gen_main': 6, 'backend': 'serial'})
+                out0 = execute(sc0, ch, None)
+                if out0.kind == 'return':
+                    built = out0.built
+            out = execute(sc, ch, d, built=built)
             if out.kind == 'warmup-failed':
                 vs = [O.V(self.id, 'earlier-run-failed', f'the earlier serial run that creates the cache pre-state (all tasks succeed) '
                           f'failed: {out.exc["type"]}: {out.exc["msg"][:200]}', exc=out.exc['type'])]
@@ -261,6 +272,8 @@ class Check:
         r = self.record(sc, out, vs, ch)
         if second:
             r['probes']['second-call-same-objects'] = 1
+        if built is not None:
+            r['probes']['earlier-call-same-objects'] = 1
         return r
 
     owns_liveness = False
@@ -301,6 +314,9 @@ class C01(Check):
         cfg = ch.stream('config')
         if len(sc['requested']) == 1 and cfg.chance(1, 4):
             sc['run_task'] = True
+        if cfg.chance(1, 5):
+            # some tasks start a child process of their own through multiprocessing
+            sc['mp_children'] = [n['id'] for n in sc['nodes'] if cfg.chance(1, 3)]
         return sc
 
     def oracle(self, sc, out, facts):
@@ -430,6 +446,8 @@ class C10(Check):
 
     def gen(self, ch, tier):
         sc = gen_scenario(ch, backends=ALL_BACKENDS, cache='sometimes', fail=2, die=True, cof=(True, False, True), bust=True)
+        if ch.stream('config').chance(1, 4):
+            sc['earlier_call'] = True       # the task objects have been through a successful run_tasks call before
         return with_die_kills(sc, ch)
 
     def oracle(self, sc, out, facts):
@@ -516,7 +534,7 @@ class C16(Check):
     expected_probes = ('context-filter-TP', 'ctx-storage-compare', 'process-started')
 
     def gen(self, ch, tier):
-        sc = gen_scenario(ch, backends=ALL_BACKENDS, cache='sometimes',
+        sc = gen_scenario(ch, backends=ALL_BACKENDS, cache='sometimes', fail=1,
                           types=[('TA', 3), ('TB', 2), ('TC', 2), ('TD', 2), ('TN', 2), ('TP', 5), ('TR', 3), ('TF', 5)])
         cfg = ch.stream('config')
         if sc['backend'] in ('fork', 'spawn') and cfg.chance(1, 3):
@@ -561,6 +579,11 @@ class C16(Check):
         if out.kind != 'return':
             what = out.exc['type'] if out.exc else out.abort
             vs.append(O.V('C16', 'no-return', f'run_tasks did not return: {what} {(out.exc or {}).get("msg", "")[:200]}', exc=what))
+        if backend in ('serial', 'sim') and out.main_proc_name_after not in (None, 'MainProcess'):
+            # in-process backends rename the caller's process while a task runs; it was 'MainProcess' before the call
+            vs.append(O.V('C16', 'process-name-not-restored', f'after run_tasks the calling process is named {out.main_proc_name_after!r} '
+                          f'(it was \'MainProcess\' before); failing tasks: {sorted(sc.get("fail") or {})}', backend=backend,
+                          with_failures=bool(sc.get('fail'))))
         return vs
 
     def run(self, ch, workdir, tier):
@@ -720,9 +743,22 @@ def check_C19(sc, out, facts) -> list:
         if kind in ('print', 'out', 'err'):
             want = 'flush_err' if kind == 'err' else 'flush_out'
             flushed_after[idx] = any(e2[1] == node and e2[2] == want for _i2, e2 in emits[pos + 1:])
+    # continue_on_failure=False: run_tasks raises at the first failure it processes.  Due are the messages of
+    # the tasks whose completion the coordinator had processed by then, the failing one included (their output
+    # was on the log queue before their result); tasks still in flight are abandoned.
+    due_nodes = None
+    if out.kind == 'raise':
+        due_nodes = set()
+        for e in out.events:
+            if e[0] == 'complete':
+                due_nodes.add(e[1])
+                if len(e) > 2 and e[2] != 'ok':
+                    break
     seen_tok = set()
     for idx, e in emits:
         node, kind, payload = e[1], e[2], e[3]
+        if due_nodes is not None and node not in due_nodes:
+            continue
         if kind == 'burst':
             # payload records, each with its own token, in order
             got = [m for m in delivered if m.startswith(f'bst{node}x')]
@@ -761,6 +797,11 @@ def check_C19(sc, out, facts) -> list:
                           f'; node finished {"last" if last_end and last_end[1] == node else "earlier"}',
                           kind=('logger' if kind == 'log' else ('fragment' if kind == 'out' else 'stream')),
                           last_finisher=bool(last_end and last_end[1] == node), task_died=(node in died)))
+    in_worker = [e for e in out.events if e[0] == 'log-in-worker']
+    if in_worker:
+        vs.insert(0, O.V('C19', 'handled-in-worker', f'a handler of the caller\'s labtech logger handled {len(in_worker)} record(s) inside task '
+                         f'process {in_worker[0][1]} (it is still attached there: a file or stream handler writes those records a '
+                         f'second time)', which=in_worker[0][2]))
     return vs[:6]
 
 
@@ -770,7 +811,7 @@ class C19(Check):
     expected_probes = ('emitted-log', 'emitted-stream', 'flush-twice', 'last-finisher-emits', 'emitter-raises')
 
     def gen(self, ch, tier):
-        sc = gen_scenario(ch, backends=[('fork', 1), ('spawn', 1)], cache='sometimes', max_nodes=6)
+        sc = gen_scenario(ch, backends=[('fork', 1), ('spawn', 1)], cache='sometimes', max_nodes=6, cof=(True, True, False))
         ft = ch.stream('fault')
         sc['emit'] = {}
         for n in sc['nodes']:
@@ -781,7 +822,11 @@ class C19(Check):
 
     def oracle(self, sc, out, facts):
         vs = check_C19(sc, out, facts)
-        if out.kind != 'return':
+        raised_ok = (out.kind == 'raise' and not sc.get('cof', True) and out.exc and out.exc['type'] == 'LabError'
+                     and any((e[0] == 'fault' and e[1] == 'raise') or e[0] == 'kill' for e in out.events))
+        if raised_ok:
+            pass        # a task failed and continue_on_failure is off: LabError is the specified outcome
+        elif out.kind != 'return':
             what = out.exc['type'] if out.exc else out.abort
             vs.append(O.V('C19', 'no-return', f'run_tasks did not return: {what} {(out.exc or {}).get("msg", out.abort_detail)[:200]}', exc=what))
         return vs
